@@ -17,8 +17,8 @@
 (* _cancelled), cs (client: Pilot.state), ctl.  Ghosts: named (pilots some *)
 (* request of this manager named, explicitly or by "all"), ext (pilots     *)
 (* whose batch job the environment ended as CANCELED), jobc / annc (batch  *)
-(* job cancel requested / CANCELED announced by the launcher), owed (a     *)
-(* delivered kill did not do what it owes to a pilot it means).            *)
+(* job cancel requested / CANCELED announced by the launcher), due (the    *)
+(* pilots a delivered kill means and found not final).                     *)
 (*                                                                         *)
 (* Launching is not one step.  work() takes a bulk (WorkBegin: pilots a    *)
 (* kill named before are dropped), prepares and stages (phase "staging",   *)
@@ -27,8 +27,8 @@
 (* _kill_pilots takes the same lock: a kill cannot be delivered in phase   *)
 (* "submit", it waits for LaunchEnd and finds the pilots registered.  A    *)
 (* kill delivered while the bulk is staged finds the pilots unknown and    *)
-(* remembers them: intended is that they are looked at again before the    *)
-(* jobs are submitted (LaunchBegin).  The batch layer reports job states   *)
+(* remembers them: they are looked at again once the bulk is registered    *)
+(* (LaunchEnd: _kill_pilots(late)).  The batch layer reports job states    *)
 (* from inside the submission on (JobEnds for a pilot of the bulk in phase *)
 (* "submit"): the launchers know the job by then, every report reaches the *)
 (* pilot it is for (ghosts: rep = pilots whose job reported a final state  *)
@@ -45,7 +45,10 @@
 (*        lost                                                             *)
 (*   DevLaunchOutsideLock : the jobs are submitted without the lock: a     *)
 (*        kill is delivered during the submission, finds the pilot         *)
-(*        unknown, the pilot is registered afterwards - the kill is lost   *)
+(*        unknown and remembers it.  NOT a deviation which breaks C14 as   *)
+(*        long as the remembered pilots are killed at LaunchEnd (the kill  *)
+(*        is enacted a moment later; C14 states no immediacy) - it does    *)
+(*        together with DevNoRecheckAtLaunch                               *)
 (*   DevRegisterAfterSubmit : the PSI/J launcher learns the job id only    *)
 (*        after submit() returned: a state reported from inside submit()   *)
 (*        is dropped                                                       *)
@@ -66,10 +69,10 @@ VARIABLES kind, lv, cs, pre, ctl, closed, nreq, last,
           wph,            \* "idle" | "staging" | "submit" (lock held)
           mates,          \* per pilot: the bulk it was submitted in
           jdone,          \* pilots whose batch job reported a final state
-          named, ext, jobc, annc, owed, rep, wrong
+          named, ext, jobc, annc, due, rep, wrong
 
 vars == <<kind, lv, cs, pre, ctl, closed, nreq, last, wk, wph, mates, jdone,
-          named, ext, jobc, annc, owed, rep, wrong>>
+          named, ext, jobc, annc, due, rep, wrong>>
 wvars == <<wk, wph, mates>>
 
 Uids == Pilots \cup {Ghost}
@@ -80,7 +83,7 @@ Init ==
   /\ kind \in [Pilots -> {"saga", "psij"}]
   /\ lv = [p \in Pilots |-> "none"] /\ cs = [p \in Pilots |-> "PEND"]
   /\ pre = {} /\ ctl = <<>> /\ closed = FALSE /\ nreq = 0 /\ last = "init"
-  /\ named = {} /\ ext = {} /\ owed = {} /\ rep = {} /\ wrong = FALSE
+  /\ named = {} /\ ext = {} /\ due = {} /\ rep = {} /\ wrong = FALSE
   /\ wk = {} /\ wph = "idle" /\ mates = [p \in Pilots |-> {}] /\ jdone = {}
   /\ jobc = [p \in Pilots |-> FALSE] /\ annc = [p \in Pilots |-> FALSE]
 
@@ -102,35 +105,33 @@ WorkBegin(S) ==
      /\ wk'   = S \ drop
      /\ wph'  = IF S \ drop = {} THEN "idle" ELSE "staging"
   /\ last' = "work_begin"
-  /\ UNCHANGED <<kind, pre, ctl, closed, nreq, mates, jdone, named, ext, jobc, owed, rep, wrong>>
+  /\ UNCHANGED <<kind, pre, ctl, closed, nreq, mates, jdone, named, ext, jobc, due, rep, wrong>>
 
-\* staging is done, the lock is taken; pilots remembered meanwhile are dropped
+\* staging is done, the lock is taken, the jobs are being submitted
 LaunchBegin ==
-  /\ wph = "staging"
-  /\ LET late == IF DevNoRecheckAtLaunch THEN {} ELSE wk \cap pre IN
-     /\ lv'   = [p \in Pilots |-> IF p \in late THEN "dropped" ELSE lv[p]]
-     /\ annc' = [p \in Pilots |-> annc[p] \/ p \in late]
-     /\ cs'   = [p \in Pilots |-> IF p \in late THEN Seen(p, "CANCELED") ELSE cs[p]]
-     /\ wk'   = wk \ late
-     /\ wph'  = IF wk \ late = {} THEN "idle" ELSE "submit"
-  /\ last' = "launch_begin"
-  /\ UNCHANGED <<kind, pre, ctl, closed, nreq, mates, jdone, named, ext, jobc, owed, rep, wrong>>
+  /\ wph = "staging" /\ wph' = "submit" /\ last' = "launch_begin"
+  /\ UNCHANGED <<kind, lv, cs, pre, ctl, closed, nreq, wk, mates, jdone, named, ext, jobc, annc, due, rep, wrong>>
 
-\* the jobs are submitted, the pilots registered, the lock released.  A pilot which is
-\* remembered for cancellation and gets registered all the same: its kill is lost
+\* the jobs are submitted, the pilots registered; those a kill had the launcher remember
+\* meanwhile (while the bulk was prepared and staged - or, without the lock, submitted) are
+\* killed now: _kill_pilots(late).  Then the lock is released.
 LaunchEnd ==
   /\ wph = "submit"
-  /\ lv'    = [p \in Pilots |-> IF p \in wk THEN "live" ELSE lv[p]]
+  /\ LET late == IF DevNoRecheckAtLaunch THEN {} ELSE wk \cap pre
+         sag  == {p \in late : kind[p] = "saga"} IN
+     /\ lv'   = [p \in Pilots |-> IF p \in sag THEN "CANCELED" ELSE IF p \in wk THEN "live" ELSE lv[p]]
+     /\ jobc' = [p \in Pilots |-> jobc[p] \/ p \in late]
+     /\ annc' = [p \in Pilots |-> annc[p] \/ p \in sag]
+     /\ cs'   = [p \in Pilots |-> IF p \in sag THEN Seen(p, "CANCELED") ELSE cs[p]]
   /\ mates' = [p \in Pilots |-> IF p \in wk THEN wk ELSE mates[p]]
-  /\ owed'  = owed \cup {p \in wk \cap pre : ~jobc[p]}
   /\ wk' = {} /\ wph' = "idle" /\ last' = "launch_end"
-  /\ UNCHANGED <<kind, cs, pre, ctl, closed, nreq, jdone, named, ext, jobc, annc, rep, wrong>>
+  /\ UNCHANGED <<kind, pre, ctl, closed, nreq, jdone, named, ext, due, rep, wrong>>
 
 \* the agent reports in
 Active(p) ==
   /\ lv[p] = "live" /\ cs[p] = "LAUNCH" /\ ~closed /\ p \notin jdone
   /\ cs' = [cs EXCEPT ![p] = "ACTIVE"] /\ last' = "active"
-  /\ UNCHANGED <<kind, lv, pre, ctl, closed, nreq, wvars, jdone, named, ext, jobc, annc, owed, rep, wrong>>
+  /\ UNCHANGED <<kind, lv, pre, ctl, closed, nreq, wvars, jdone, named, ext, jobc, annc, due, rep, wrong>>
 
 \* the batch layer reports the end of a job - at any time from inside the submission on.
 \* CANCELED without a cancel request of the launcher is the environment's doing.
@@ -148,7 +149,7 @@ JobEnds(p, s, q) ==
      /\ cs'    = IF lost THEN cs ELSE [cs EXCEPT ![q] = Seen(q, s)]
      /\ annc'  = IF lost THEN annc ELSE [annc EXCEPT ![q] = annc[q] \/ s = "CANCELED"]
   /\ last' = "job_ends"
-  /\ UNCHANGED <<kind, pre, ctl, closed, nreq, wvars, named, jobc, owed>>
+  /\ UNCHANGED <<kind, pre, ctl, closed, nreq, wvars, named, jobc, due>>
 
 (* ---- requests ---------------------------------------------------------------- *)
 CanReq(n) == ~closed /\ nreq < MaxReq /\ Len(ctl) + n <= MaxCtl
@@ -160,7 +161,7 @@ ReqKill(U) ==
   /\ LET V == IF U = {} THEN Pilots ELSE U IN
      /\ named' = named \cup (V \cap Pilots)
      /\ ctl'   = IF Ghost \in V THEN ctl ELSE Append(ctl, Msg("kill", TRUE, V))
-  /\ UNCHANGED <<kind, lv, cs, pre, closed, ext, jobc, annc, owed, wvars, jdone, rep, wrong>>
+  /\ UNCHANGED <<kind, lv, cs, pre, closed, ext, jobc, annc, due, wvars, jdone, rep, wrong>>
 
 \* PilotManager.cancel_pilots(uids): a message for the agents; the launcher has no part
 ReqCancel(U) ==
@@ -168,21 +169,21 @@ ReqCancel(U) ==
   /\ LET V == IF U = {} THEN Pilots ELSE U IN
      /\ named' = named \cup (V \cap Pilots)
      /\ ctl'   = Append(ctl, Msg("cancel", TRUE, V))
-  /\ UNCHANGED <<kind, lv, cs, pre, closed, ext, jobc, annc, owed, wvars, jdone, rep, wrong>>
+  /\ UNCHANGED <<kind, lv, cs, pre, closed, ext, jobc, annc, due, wvars, jdone, rep, wrong>>
 
 \* a kill_pilots control message as such: any uids, also none ("all you launched")
 ReqRaw(U, own) ==
   /\ CanReq(1) /\ nreq' = nreq + 1 /\ last' = "req_raw"
   /\ named' = IF own THEN named \cup (IF U = {} THEN Pilots ELSE U \cap Pilots) ELSE named
   /\ ctl'   = Append(ctl, Msg("kill", own, U))
-  /\ UNCHANGED <<kind, lv, cs, pre, closed, ext, jobc, annc, owed, wvars, jdone, rep, wrong>>
+  /\ UNCHANGED <<kind, lv, cs, pre, closed, ext, jobc, annc, due, wvars, jdone, rep, wrong>>
 
 \* PilotManager.close(): cancel all, kill all, stop listening
 Close ==
   /\ CanReq(2) /\ nreq' = nreq + 1 /\ last' = "close"
   /\ named' = Pilots /\ closed' = TRUE
   /\ ctl' = ctl \o <<Msg("cancel", TRUE, Pilots), Msg("kill", TRUE, Pilots)>>
-  /\ UNCHANGED <<kind, lv, cs, pre, ext, jobc, annc, owed, wvars, jdone, rep, wrong>>
+  /\ UNCHANGED <<kind, lv, cs, pre, ext, jobc, annc, due, wvars, jdone, rep, wrong>>
 
 (* ---- the launcher gets a control message --------------------------------------- *)
 \* (not while work() holds the lock for the submission: the control thread waits)
@@ -204,8 +205,8 @@ Deliver ==
      /\ lv'   = [p \in Pilots |-> IF p \in kn /\ kind[p] = "saga" THEN "CANCELED" ELSE lv[p]]
      /\ annc' = [p \in Pilots |-> annc[p] \/ (p \in kn /\ kind[p] = "saga" /\ lv[p] # "CANCELED")]
      /\ cs'   = [p \in Pilots |-> IF p \in kn /\ kind[p] = "saga" THEN Seen(p, "CANCELED") ELSE cs[p]]
-     /\ owed' = owed \cup {p \in mean : \/ OwesJobCancel(lv[p]) /\ ~jobc'[p]
-                                        \/ OwesRemember(lv[p])  /\ p \notin pre'}
+     \* the delivered kill means them and they are not final: they are due to be canceled
+     /\ due' = due \cup {p \in mean : OwesJobCancel(lv[p]) \/ OwesRemember(lv[p])}
   /\ last' = "deliver"
   /\ UNCHANGED <<kind, closed, nreq, named, ext, wvars, jdone, rep, wrong>>
 
@@ -218,7 +219,7 @@ Spec == Init /\ [][Next]_vars
 
 (* ---- properties ------------------------------------------------------------------ *)
 TypeOK == /\ \A p \in Pilots : lv[p] \in LViews /\ cs[p] \in CViews
-          /\ pre \subseteq Uids /\ named \subseteq Pilots /\ ext \subseteq Pilots /\ owed \subseteq Pilots
+          /\ pre \subseteq Uids /\ named \subseteq Pilots /\ ext \subseteq Pilots /\ due \subseteq Pilots
           /\ wk \subseteq Pilots /\ wph \in {"idle", "staging", "submit"} /\ jdone \subseteq Pilots
 
 \* C14.KilledNotNamed: a pilot nobody named is never canceled - its batch job is not
@@ -229,9 +230,14 @@ InvKilledNotNamed ==
                     /\ p \in pre => p \in named
                     /\ annc[p] => p \in named \cup ext
                     /\ cs[p] = "CANCELED" => p \in named \cup ext
-\* C14.NamedNotKilled: a delivered kill cancels the job of every launched, non-final pilot it
-\* means and remembers the ones which did not arrive yet; those are not launched later
-InvNamedKilled == owed = {}
+\* C14.NamedNotKilled, an EVENTUAL obligation judged where nothing is in flight (no bulk being
+\* launched, no control message on its way): every pilot a delivered kill means and found not
+\* final had its job canceled (or the job ended by itself, or the launcher holds it final), or
+\* was dropped on arrival, or has not arrived and is remembered
+Quiet == wph = "idle" /\ ctl = <<>>
+InvNamedKilled ==
+  Quiet => \A p \in due : \/ jobc[p] \/ p \in jdone \/ lv[p] \in Final \/ lv[p] = "dropped"
+                          \/ lv[p] = "none" /\ p \in pre
 \* C15.PilotFinalNotReported: a final job state the batch layer reported - also from inside
 \* the submission - made the pilot final at the client (Pilot.wait / wait_pilots return)
 InvFinalReported == \A p \in rep : cs[p] \in Final
